@@ -42,10 +42,11 @@ def lines_for(rng, lit):
 def _search_batch(job):
     """library level: the code's compiled regex on lines"""
     out = []
-    from bumpver import v2patterns
+    from bumpver import v2patterns, parse
     for kind, pat, lines in job:
         try:
-            rx = v2patterns.compile_pattern(pat).regexp
+            cp_ = v2patterns.compile_pattern(pat)
+            rx = cp_.regexp
         except Exception as ex:  # pylint:disable=broad-except
             out.append(dict(unclassified="compile error %s: %s" % (type(ex).__name__, ex), pat=pat, kind=kind))
             continue
@@ -54,9 +55,16 @@ def _search_batch(job):
         except glue.OutsideGrammar as ex:
             out.append(dict(unclassified=str(ex), pat=pat, kind=kind))
             continue
-        for line in lines:
+        for k, line in enumerate(lines):
             m = rx.search(line)
-            out.append(dict(ev="search", P=P, line=glue.cp(line), hit=list(m.span()) if m else [-1, -1], pat=pat, kind=kind,
+            hit = list(m.span()) if m else [-1, -1]
+            if k % 2 == 0:
+                # ... and the way `update` finds occurrences: parse.iter_matches over the lines of a file (one match per pattern and line)
+                ms = [x for x in parse.iter_matches([line], [cp_])]
+                hit2 = list(ms[0].span) if ms else [-1, -1]
+                if hit2 != hit and not (hit[0] == hit[1] and hit2 == [-1, -1]):        # an empty match is not an occurrence
+                    out.append(dict(ev="search", P=P, line=glue.cp(line), hit=hit2, pat=pat, kind=kind, dbg="%r on %r (parse.iter_matches; the regexp itself gives %s)" % (pat, line, hit)))
+            out.append(dict(ev="search", P=P, line=glue.cp(line), hit=hit, pat=pat, kind=kind,
                             dbg="%r on %r" % (pat, line)))
     return out
 
